@@ -1,7 +1,7 @@
 #!/bin/bash
 # evaluates every /verif/seeded/<name> with seedeval.sh, 4 at a time (separate cargo target dirs), then writes meta.json
 cd /verif/seeded
-ls -d */ | sed 's|/||' | sort > /tmp/seed_list.txt
+ls -d */ | sed "s|/||" | grep "${1:-.}" | sort > /tmp/seed_list.txt
 n=0
 while read d; do
   slot=$((n % 4)); n=$((n+1))
